@@ -11,7 +11,7 @@ def gen_script(rng, maxsel=4, maxwork=10, allow_reinit=True):
     """One context's script: list of 'item args' strings, ending in PROBE <layers>.
     Also returns the reference script: the last selection of every probed layer + the probe."""
     steps = ['RESEED ' + rng.bytes(8).hex()]
-    l0 = l1 = l2 = l3 = None  # the selection line currently in force per layer (l0: field-only selection)
+    l0 = l1 = l2 = l3 = l4 = None  # the selection line currently in force per layer (l0: field-only selection; l4: binary field only)
     nsel = rng.randint(1, maxsel)
     for si in range(nsel):
         # ---- a selection (or a failed one, or a re-initialisation)
@@ -35,9 +35,15 @@ def gen_script(rng, maxsel=4, maxwork=10, allow_reinit=True):
             l1 = 'EPANY ' + rng.choice(['plain', 'endom', 'ec', 'any'])
             l2 = None
             steps.append(l1)
-        elif r < 80:
+        elif r < 76:
             l3 = 'EBSET ' + rng.choice(['any', 'NIST_B283', 'NIST_K283'])
+            l4 = None
             steps.append(l3)
+        elif r < 80:
+            # the binary field alone (its reduction polynomial): a binary curve from before is stale by contract
+            l4 = 'FBSET ' + rng.choice(['NIST_283', 'SQRT_283', 'SQRT_283', 'any'])
+            l3 = None
+            steps.append(l4)
         elif r < 88:
             # a failed selection: the one in force must stay in force
             steps.append(rng.choice(['EPSET UNSUPPORTED', 'EBSET bad'] + ([] if l2 else ['TWIST bad'])))     # a twist type that is neither: only while no pairing layer is in force
@@ -46,7 +52,7 @@ def gen_script(rng, maxsel=4, maxwork=10, allow_reinit=True):
         elif allow_reinit:
             steps.append('REINIT')
             steps.append('RESEED ' + rng.bytes(8).hex())
-            l0 = l1 = l2 = l3 = None
+            l0 = l1 = l2 = l3 = l4 = None
         # ---- work that touches caches and derived constants of what is selected
         for _ in range(rng.randint(0, maxwork)):
             pool = [('W_FAIL %d' % rng.below(3), 6), ('GETCODE', 8), ('RAND', 4), ('W_THROWOUT', 2),
@@ -63,19 +69,19 @@ def gen_script(rng, maxsel=4, maxwork=10, allow_reinit=True):
             steps.append(it)
             if it == 'W_THROWOUT':
                 steps.append('CLRERR')
-    layers = ('0' if (l0 and not l1) else '') + ('1' if l1 else '') + ('2' if l2 else '') + ('3' if l3 else '')
+    layers = ('0' if (l0 and not l1) else '') + ('1' if l1 else '') + ('2' if l2 else '') + ('3' if l3 else '') + ('4' if (l4 and not l3) else '')
     steps.append('CLRERR')
     ref = ['RESEED 00']
     if layers:
         steps.append('PROBE ' + layers)
         seen = []
-        for sel in ((l0 if not l1 else None), l1, l2, l3):
+        for sel in ((l0 if not l1 else None), l1, l2, l3, (l4 if not l3 else None)):
             if sel and sel not in seen:
                 seen.append(sel)
                 ref.append(sel)
         ref.append('CLRERR')
         ref.append('PROBE ' + layers)
-    last = (l2 or l1 or l0 or l3 or 'none')
+    last = (l2 or l1 or l0 or l3 or l4 or 'none')
     if rng.chance(0.4):
         steps.append('FINI')        # this context is finalised while the others carry on
     return steps, ref, last
@@ -146,7 +152,7 @@ def _split(tr):
 
 
 def _probe_lines(lines):
-    return [l for l in lines if l[:2] in ('P0', 'P1', 'P2', 'P3')]
+    return [l for l in lines if l[:2] in ('P0', 'P1', 'P2', 'P3', 'P4')]
 
 
 def _first_diff_field(a, b):
@@ -171,7 +177,7 @@ def check(plan, transcript, config, opts, refs=None):
         idx += 2
         mine = got.get(i, [])
         out.evals += len(mine)
-        sels = [s.split()[0] for s in sc[i] if s.split()[0] in ('FPSET', 'EPSET', 'PCANY', 'EPANY', 'EBSET', 'REINIT')]
+        sels = [s.split()[0] for s in sc[i] if s.split()[0] in ('FPSET', 'EPSET', 'PCANY', 'EPANY', 'EBSET', 'FBSET', 'REINIT')]
         out.keys.add(('script', tuple(sels), last.get(i)))
         for a, b in zip(sels, sels[1:]):
             out.keys.add(('pair', a, b))
